@@ -25,6 +25,7 @@ RULE = (
     "quotes, lambdas, conditionals, comments and newlines inside brackets, f-strings) x filters x layouts. "
     "distinct = (configuration, expression text); non-trivial = at least two filters actually applied."
 )
+RULE += " added since: filters built by a call taking dict/set display arguments (mk({'a': 1}), mk({2}, k={}))."
 ASSUMPTIONS = [
     "default and page filter names resolve at module level (imports / <%! %>), as documented; expression "
     "filters may also come from the context",
